@@ -98,8 +98,30 @@ func decide(o *obligation, opts solveOpts) {
 		want = "sat"
 	}
 	t0 := time.Now()
-	r := runSolver("z3-new", script, opts.timeout)
 	var all []solverRes
+	if !o.ExpectSat && !opts.twoVotes && len(script) > 300000 {
+		// sliced attempts first (sound: fewer assumptions); see smtctx.slicedScript
+		for _, rounds := range []int{2, 4} {
+			if ss, ok := o.ctx.slicedScript(o.NAssume, o.Goal, rounds); ok {
+				if opts.dumpDir != "" {
+					os.WriteFile(filepath.Join(opts.dumpDir, mangle(o.Name)+fmt.Sprintf(".slice%d.smt2", rounds)), []byte(ss), 0o644)
+				}
+				sr := runSolver("z3-new", ss, 3*time.Second)
+				sr.solver = fmt.Sprintf("z3-new(slice%d)", rounds)
+				if sr.status == "unsat" {
+					o.Secs = time.Since(t0).Seconds()
+					o.Status, o.Solver = "discharged", sr.solver
+					o.Output = fmt.Sprintf("%s: unsat (%.2fs)", sr.solver, sr.secs)
+					return
+				}
+			}
+		}
+	}
+	first := opts.timeout
+	if !opts.twoVotes && !o.ExpectSat && first > 6*time.Second {
+		first = 6 * time.Second // what z3 does not decide in a few seconds it rarely decides in ten
+	}
+	r := runSolver("z3-new", script, first)
 	all = append(all, r)
 	votes := 0
 	if r.status == want {
@@ -119,7 +141,13 @@ func decide(o *obligation, opts solveOpts) {
 			wg.Add(1)
 			go func(i int, s string) {
 				defer wg.Done()
-				rs[i] = runSolver(s, script, opts.timeout)
+				to := opts.timeout
+				if s == "cvc5" && !opts.twoVotes {
+					// cvc5 decides a handful of frame obligations that z3 does not (it finds the needed equality case
+					// split); it needs about as long as the base timeout for them, so it gets a wide margin
+					to = 3 * opts.timeout
+				}
+				rs[i] = runSolver(s, script, to)
 			}(i, s)
 		}
 		wg.Wait()
